@@ -284,16 +284,81 @@ def _worker(job, chk):
         chk.count("histories")
 
 
+def _failover_worker(job, chk):
+    """HashClient failover histories (the driver of C13's single-failure time grid: h1 fails at 0, recovers at
+    `th`, operations on its key at every subset of <= 4 grid times), judged by C06's socket clauses: at every call
+    boundary each open socket is the current socket of the client that opened it and that client is one the
+    HashClient still holds; after close() nothing is open."""
+    _, ra, ie, th, tier = job
+    import itertools
+    from checks import c13
+    T = 12
+    for size in range(1, 5 if tier == "quick" else 6):
+        for st in itertools.combinations(range(0, T + 1), size):
+            w = c13.World((2, ra, ie, "refused"))
+            net, hc = w.net, w.hc
+            w.apply(("fail", 0))
+            now, healed, bad = 0, False, None
+            for n, t in enumerate(st, 1):
+                if t >= th and not healed:
+                    w.apply(("adv", th - now))
+                    now = th
+                    w.apply(("heal", 0))
+                    healed = True
+                if t > now:
+                    w.apply(("adv", t - now))
+                    now = t
+                w.op("get" if (t % 3) else "get_many", 0)
+                held = {id(c) for c in stacks.inner_clients(hc)}
+                for s in net.open_sockets():
+                    o = s.owner
+                    if o is None or o.sock is not s:
+                        bad = ("socket-leaked", f"after operation {n} (time {t}) socket {s.sid} is open but is not the current socket of the client that opened it")
+                    elif id(o) not in held:
+                        bad = ("socket-of-abandoned-client", f"after operation {n} (time {t}) socket {s.sid} to {s.addr} is open and belongs to a client "
+                               f"the HashClient no longer holds (nothing can close it)")
+                if bad:
+                    break
+            if bad is None:
+                try:
+                    hc.close()
+                except Exception:  # noqa
+                    pass
+                left = net.open_sockets()
+                if left:
+                    bad = ("open-after-close", f"{len(left)} socket(s) still open after close(): {[(s.sid, s.addr) for s in left]}")
+            chk.add()
+            chk.outcome(("failover", ra, ie, th, st))
+            if bad:
+                chk.violation(f"{bad[0]}|hash2|failover|retry_attempts={ra}",
+                              f"HashClient([h1, h2], retry_attempts={ra}, retry_timeout=1, dead_timeout=6, ignore_exc={ie}): h1 refuses connections "
+                              f"from 0 and recovers at {th}; operations on its key at times {list(st)}: {bad[1]}",
+                              {"failover": [ra, ie, th, list(st)], "tier": tier})
+    chk.count("failover_histories")
+
+
+def _any_worker(job, chk):
+    if job[0] == "failover":
+        return _failover_worker(job, chk)
+    return _worker(job, chk)
+
+
 def run(chk):
     chk.rule = RULE
     chk.assumptions = ["simnet's socket model: a socket is open from socket() until close(); wrap_socket transfers the descriptor to the wrapper",
                        "every resolved address is served by the same reference server"]
     chk.info["deviation_bounds"] = ("2 deviations on op1;op2;close for the plain/ignore_exc/keepalive option sets on Client and on tcp2/tls, 1 elsewhere; 1 on op1;op2;op3;close" if chk.tier == "quick" else "3 on op1;op2;close + 2 on op1;op2;op3;close")
     chk.info["configurations"] = len(configs(chk.tier))
-    runner.parallel(chk, _worker, _jobs(chk.tier))
+    fo = [("failover", ra, ie, th, chk.tier) for ra in (0, 1, 2) for ie in (False, True) for th in (1, 3, 5, 99)]
+    runner.parallel(chk, _any_worker, _jobs(chk.tier) + fo)
 
 
 def replay(detail):
+    if detail.get("failover"):
+        ra, ie, th, st = detail["failover"]
+        tmp = runner.Check(PROPERTY, LEVEL, detail.get("tier", "quick"), 0)
+        _failover_worker(("failover", ra, ie, th, detail.get("tier", "quick")), tmp)
+        return [v["what"] for v in tmp.violations.values()]
     lab = {o.label: o for o in OPS + [CLOSE]}
     seq = [lab[l] for l in detail["history"]]
     tr, opt, stack = detail["transport"], detail["options"], detail["stack"]
